@@ -32,6 +32,7 @@ func runC20(c *Ctx) {
 	c20R4(c, "C20.R4")
 	c20R5(c, "C20.R5")
 	c20R6(c, "C20.R6")
+	c20R7(c, "C20.R7")
 }
 
 type c20Target struct {
